@@ -467,6 +467,20 @@ def deform(case):
         chk.note('strain-mode-%d' % mode, 1)
         check_nlist(fails, st.neighbors, Nbv, 'strain')
         strain_outputs(fails, 'strain-', st, N, F)
+        # ---- the same Strain object after its reference was replaced and the solution repeated (documented public
+        #      methods set_p_vectors / build_p_vectors / solve_G): first a slightly rotated (wrong) reference, then
+        #      the right one again -- every output must again be that of the imposed deformation
+        c2, s2 = np.cos(np.radians(2.0)), np.sin(np.radians(2.0))
+        RW = np.array([[c2, -s2, 0.0], [s2, c2, 0.0], [0.0, 0.0, 1.0]])
+        st.set_p_vectors([np.array(p) @ RW.T for p in pown])
+        st.solve_G()
+        if mode in (0, 1) and ok0:
+            st.build_p_vectors(s0, neighbors=nl0)
+        else:
+            st.set_p_vectors([np.array(p) for p in pown])
+        st.solve_G()
+        strain_outputs(fails, 'strain-resolved-', st, N, F)
+        chk.note('strain-live-resolves', 1)
         d = st.asdict(['G', 'rotation', 'strain', 'invariant1', 'invariant2', 'invariant3', 'angularvelocity', 'nye'])
         for k, v in d.items():
             if not np.array_equal(v, getattr(st, k)):
